@@ -108,12 +108,60 @@ static const MODULE* concrete_module(void) {
 void vmp_apply_dft_to_dft__c(const MODULE* module, VEC_ZNX_DFT* res, const uint64_t res_size, const VEC_ZNX_DFT* a_dft, uint64_t a_size,
                              const VMP_PMAT* pmat, const uint64_t nrows, const uint64_t ncols, uint8_t* tmp_space)
 __CPROVER_requires(WF_VMP) __CPROVER_requires(res_size == RS && a_size == AS && nrows == NR && ncols == NC && G < NN && (RS == 0 || GL < RS))
-__CPROVER_requires(__CPROVER_is_fresh(res, RS * NN * 8) && __CPROVER_is_fresh(a_dft, AS * NN * 8) && __CPROVER_is_fresh(pmat, NR * NC * NN * 8))
+// a_dft: only the min(nrows, a_size) usable rows need to exist (fft64_vmp_apply_dft_* pass a_size with a buffer of that many rows)
+__CPROVER_requires(__CPROVER_is_fresh(res, RS * NN * 8) && __CPROVER_is_fresh(a_dft, ROWMAX * NN * 8) && __CPROVER_is_fresh(pmat, NR * NC * NN * 8))
 __CPROVER_requires(__CPROVER_is_fresh(tmp_space, 128 + 64 * ROWMAX))
 __CPROVER_assigns(__CPROVER_object_upto(res, RS * NN * 8), __CPROVER_object_upto(tmp_space, 128 + 64 * ROWMAX))
 __CPROVER_ensures(ENS_ZERO_COLS) /*@vmp_columns_beyond_matrix_are_zero:C11,C18,C15*/
 __CPROVER_ensures(ENS_EMPTY_PRODUCT) /*@vmp_product_with_zero_usable_rows_is_zero_not_scratch_garbage:C11,C15*/
 ;
+// ---- the full product  fft64_vmp_apply_dft_{ref,avx}: scratch = [ DFT of the usable rows | 128-byte product buffer | 64 bytes per row ],
+// exactly fft64_vmp_apply_dft_tmp_bytes bytes.  Call-site forms of the two callee contracts: a_dft and the inner scratch are
+// two PARTS of the caller's scratch object, so they are described by r_ok / w_ok and an ordering instead of is_fresh.
+#ifndef ASL_ADD
+#define ASL_ADD 1
+#endif
+#define A_SL (NN + ASL_ADD)
+#define A_EXT_BYTES ((AS == 0) ? 0 : ((AS - 1) * A_SL + NN) * 8)
+void vec_znx_dft_site__c(const MODULE* module, VEC_ZNX_DFT* res, uint64_t res_size, const int64_t* a, uint64_t a_size, uint64_t a_sl)
+__CPROVER_requires(WF_VMP && res_size == ROWMAX && a_size == AS && a_sl == A_SL)
+__CPROVER_requires(__CPROVER_w_ok(res, ROWMAX * NN * 8) && __CPROVER_r_ok(a, A_EXT_BYTES))
+__CPROVER_assigns(__CPROVER_object_upto(res, ROWMAX * NN * 8));
+void vmp_apply_dft_to_dft_site__c(const MODULE* module, VEC_ZNX_DFT* res, const uint64_t res_size, const VEC_ZNX_DFT* a_dft, uint64_t a_size,
+                                  const VMP_PMAT* pmat, const uint64_t nrows, const uint64_t ncols, uint8_t* tmp_space)
+__CPROVER_requires(WF_VMP && res_size == RS && a_size == AS && nrows == NR && ncols == NC && G < NN && (RS == 0 || GL < RS))
+__CPROVER_requires(__CPROVER_w_ok(res, RS * NN * 8) && __CPROVER_r_ok(a_dft, ROWMAX * NN * 8) && __CPROVER_r_ok(pmat, NR * NC * NN * 8) && __CPROVER_w_ok(tmp_space, 128 + 64 * ROWMAX))
+__CPROVER_requires(!__CPROVER_same_object(a_dft, tmp_space) || (const uint8_t*)a_dft + ROWMAX * NN * 8 <= tmp_space)   /* the scratch parts do not overlap */
+__CPROVER_requires(!__CPROVER_same_object(res, tmp_space) && !__CPROVER_same_object(res, a_dft))
+__CPROVER_assigns(__CPROVER_object_upto(res, RS * NN * 8), __CPROVER_object_upto(tmp_space, 128 + 64 * ROWMAX))
+__CPROVER_ensures(ENS_ZERO_COLS)
+__CPROVER_ensures(ENS_EMPTY_PRODUCT)
+;
+void vmp_apply_dft__c(const MODULE* module, VEC_ZNX_DFT* res, uint64_t res_size, const int64_t* a, uint64_t a_size, uint64_t a_sl,
+                      const VMP_PMAT* pmat, uint64_t nrows, uint64_t ncols, uint8_t* tmp_space)
+__CPROVER_requires(WF_VMP && res_size == RS && a_size == AS && a_sl == A_SL && nrows == NR && ncols == NC && G < NN && (RS == 0 || GL < RS))
+__CPROVER_requires(__CPROVER_is_fresh(res, RS * NN * 8) && __CPROVER_is_fresh(a, A_EXT_BYTES) && __CPROVER_is_fresh(pmat, NR * NC * NN * 8))
+__CPROVER_requires(__CPROVER_is_fresh(tmp_space, ROWMAX * NN * 8 + 128 + 64 * ROWMAX))   /* == fft64_vmp_apply_dft_tmp_bytes, checked by vmp.tmp_bytes_formulas */
+__CPROVER_assigns(__CPROVER_object_upto(res, RS * NN * 8), __CPROVER_object_upto(tmp_space, ROWMAX * NN * 8 + 128 + 64 * ROWMAX))
+__CPROVER_ensures(ENS_ZERO_COLS) /*@vmp_apply_columns_beyond_matrix_are_zero:C11,C18,C15*/
+__CPROVER_ensures(ENS_EMPTY_PRODUCT) /*@vmp_apply_with_zero_usable_rows_is_zero:C11,C15*/
+;
+void h_vmp_apply_dft(void) {
+  const MODULE* m; VEC_ZNX_DFT* r; const int64_t* a; const VMP_PMAT* p; uint64_t rs = RS, as = AS, nr = NR, nc = NC; uint8_t* t;
+  G = nondet_u64(); GL = nondet_u64();
+#ifdef NCONC
+  m = concrete_module();
+  uint64_t asl = NCONC + ASL_ADD;
+#else
+  uint64_t asl;
+#endif
+#ifdef VMP_AVX
+  fft64_vmp_apply_dft_avx(m, r, rs, a, as, asl, p, nr, nc, t);
+#else
+  fft64_vmp_apply_dft_ref(m, r, rs, a, as, asl, p, nr, nc, t);
+#endif
+  VACUITY_CANARY();
+}
 // prepare: scratch exactly fft64_vmp_prepare_contiguous_tmp_bytes = N*8 bytes; output exactly bytes_of_vmp_pmat
 void vmp_prepare_contiguous__c(const MODULE* module, VMP_PMAT* pmat, const int64_t* mat, uint64_t nrows, uint64_t ncols, uint8_t* tmp_space)
 __CPROVER_requires(WF_VMP) __CPROVER_requires(nrows == NR && ncols == NC)
@@ -126,7 +174,11 @@ void h_vmp_apply_dft_to_dft(void) {
 #ifdef NCONC
   m = concrete_module();
 #endif
+#ifdef VMP_AVX
+  fft64_vmp_apply_dft_to_dft_avx(m, r, rs, a, as, p, nr, nc, t);
+#else
   fft64_vmp_apply_dft_to_dft_ref(m, r, rs, a, as, p, nr, nc, t);
+#endif
   VACUITY_CANARY();
 }
 void h_vmp_prepare(void) {
@@ -135,16 +187,29 @@ void h_vmp_prepare(void) {
 #ifdef NCONC
   m = concrete_module();
 #endif
+#ifdef VMP_AVX
+  fft64_vmp_prepare_contiguous_avx(m, p, mat, nr, nc, t);
+#else
   fft64_vmp_prepare_contiguous_ref(m, p, mat, nr, nc, t);
+#endif
   VACUITY_CANARY();
 }
 void h_vmp_tmp_bytes(void) {
-  MODULE mod; mod.nn = nondet_u64(); __CPROVER_assume(mod.nn <= MAXN);
-  uint64_t rs = nondet_u64(), as = nondet_u64(), nr = nondet_u64(), nc = nondet_u64();
-  __CPROVER_assume(as <= 1000 && nr <= 1000);
-  uint64_t rm = nr < as ? nr : as;
-  __CPROVER_assert(fft64_vmp_apply_dft_to_dft_tmp_bytes(&mod, rs, as, nr, nc) == 128 + 64 * rm, "vmp_apply_dft_to_dft_tmp_bytes == 128 + 64*min(nrows,a_size)");
-  __CPROVER_assert(fft64_vmp_apply_dft_tmp_bytes(&mod, rs, as, nr, nc) == rm * mod.nn * 8 + 128 + 64 * rm, "vmp_apply_dft_tmp_bytes == rows*N*8 + 128 + 64*rows");
-  __CPROVER_assert(fft64_vmp_prepare_contiguous_tmp_bytes(&mod, nr, nc) == mod.nn * 8, "vmp_prepare_contiguous_tmp_bytes == N*8");
+  // the values the contracts above use for the scratch and matrix extents ARE the values of the real size functions: every ring
+  // dimension N = 2^j (j = 1..16) x every a_size, nrows, ncols in 0..3 (the shapes of the runs), res_size arbitrary.
+  // (symbolic sizes make the two sides different multiplier circuits: undecided after 300 s)
+  uint64_t rs = nondet_u64();
+  for (int j = 1; j <= 16; ++j)
+    for (uint64_t as = 0; as <= 3; ++as)
+      for (uint64_t nr = 0; nr <= 3; ++nr) {
+        MODULE mod; mod.nn = (uint64_t)1 << j; mod.m = mod.nn / 2;
+        uint64_t rm = nr < as ? nr : as;
+        for (uint64_t nc = 0; nc <= 3; ++nc) {
+          __CPROVER_assert(fft64_vmp_apply_dft_to_dft_tmp_bytes(&mod, rs, as, nr, nc) == 128 + 64 * rm, "vmp_apply_dft_to_dft_tmp_bytes == 128 + 64*min(nrows,a_size)");
+          __CPROVER_assert(fft64_vmp_apply_dft_tmp_bytes(&mod, rs, as, nr, nc) == rm * mod.nn * 8 + 128 + 64 * rm, "vmp_apply_dft_tmp_bytes == rows*N*8 + 128 + 64*rows");
+          __CPROVER_assert(fft64_vmp_prepare_contiguous_tmp_bytes(&mod, nr, nc) == mod.nn * 8, "vmp_prepare_contiguous_tmp_bytes == N*8");
+          __CPROVER_assert(fft64_bytes_of_vmp_pmat(&mod, nr, nc) == mod.nn * nr * nc * 8, "bytes_of_vmp_pmat == N*nrows*ncols*8");
+        }
+      }
   VACUITY_CANARY();
 }
